@@ -9,6 +9,7 @@ import (
 	"sync"
 	"sync/atomic"
 	"testing/synctest"
+	"time"
 )
 
 // Ordering of the parked set before the tape indexes into it.
@@ -26,6 +27,16 @@ type SchedConfig struct {
 	Order  int      `json:"order"`            // OrderByKey / OrderOldest / OrderNewest
 	Starve string   `json:"starve,omitempty"` // tasks whose key contains this run only when nothing else can
 	Free   bool     `json:"free,omitempty"`   // free-running: yields return at once (race-detector auxiliary runs)
+	// Pauses: before decision At the scheduler releases nobody for Ns of simulated time.
+	// Simulated time only moves while nothing is parked or runnable, so without this a parked
+	// task (a response about to be written, a job about to start) always wins against every
+	// timer; a pause lets deadlines, tickers and back-offs fire first - "this step was slow".
+	Pauses []Pause `json:"pauses,omitempty"`
+}
+
+type Pause struct {
+	At int   `json:"at"`
+	Ns int64 `json:"ns"`
 }
 
 type waiter struct {
@@ -59,12 +70,14 @@ type Sched struct {
 	tieCount  int                 // decisions at which the chosen key was not unique among parked
 	preempts  int                 // non-zero effective choices
 	maxParked int
+	pauses    int
 }
 
 func NewSched(cfg SchedConfig, record bool, states map[uint64]struct{}) *Sched {
 	if states == nil {
 		states = map[uint64]struct{}{}
 	}
+	cfg.Pauses = append([]Pause(nil), cfg.Pauses...) // consumed while running: never touch the scenario's own copy
 	if os.Getenv("VERIF_FREE") != "" {
 		// auxiliary race-detector executions: same scenarios, scheduler switched off
 		cfg.Free = true
@@ -245,10 +258,33 @@ func (s *Sched) loop() {
 			}
 			continue
 		}
+		if d := s.pauseDueLocked(); d > 0 {
+			s.mixLocked("pause")
+			s.pauses++
+			s.mu.Unlock()
+			select {
+			case <-time.After(time.Duration(d)):
+			case <-s.stop:
+			}
+			continue
+		}
 		w := s.pickLocked()
 		s.mu.Unlock()
 		close(w.ch)
 	}
+}
+
+// pauseDueLocked returns the length of a not yet taken pause scheduled for the current decision.
+func (s *Sched) pauseDueLocked() int64 {
+	for i := range s.cfg.Pauses {
+		p := &s.cfg.Pauses[i]
+		if p.At == s.decisions && p.Ns > 0 {
+			d := p.Ns
+			p.Ns = 0
+			return d
+		}
+	}
+	return 0
 }
 
 func (s *Sched) pickLocked() *waiter {
@@ -344,6 +380,7 @@ type SchedStats struct {
 	Preempts  int      `json:"preempts"`
 	MaxParked int      `json:"max_parked"`
 	TapeUsed  int      `json:"tape_used"`
+	Pauses    int      `json:"pauses"`
 	Log       []string `json:"log,omitempty"`
 }
 
@@ -352,7 +389,7 @@ func (s *Sched) Stats() SchedStats {
 	defer s.mu.Unlock()
 	return SchedStats{
 		Decisions: s.decisions, Trace: s.trace, Ties: s.tieCount, Preempts: s.preempts,
-		MaxParked: s.maxParked, TapeUsed: s.pos, Log: s.log,
+		MaxParked: s.maxParked, TapeUsed: s.pos, Pauses: s.pauses, Log: s.log,
 	}
 }
 
